@@ -10,6 +10,8 @@ pub mod c13;
 pub mod c08;
 pub mod c07;
 pub mod c03;
+pub mod c15;
+pub mod c16;
 
 pub fn meta(id: &str, tier: &str) -> Option<CheckMeta> {
     match id {
@@ -22,6 +24,8 @@ pub fn meta(id: &str, tier: &str) -> Option<CheckMeta> {
         "C08" => Some(c08::meta(tier)),
         "C07" => Some(c07::meta(tier)),
         "C03" => Some(c03::meta(tier)),
+        "C15" => Some(c15::meta(tier)),
+        "C16" => Some(c16::meta(tier)),
         _ => None,
     }
 }
@@ -51,6 +55,8 @@ pub fn worker(ctx: &Ctx, res: &mut ShardResult) {
         "C08" => c08::worker(ctx, res),
         "C07" => c07::worker(ctx, res),
         "C03" => c03::worker(ctx, res),
+        "C15" => c15::worker(ctx, res),
+        "C16" => c16::worker(ctx, res),
         _ => panic!("unknown check"),
     }
 }
@@ -70,6 +76,8 @@ pub fn replay(path: &str) -> i32 {
         "C08" => c08::replay(&v["case"]),
         "C07" => c07::replay(&v["case"]),
         "C03" => c03::replay(&v["case"]),
+        "C15" => c15::replay(&v["case"]),
+        "C16" => c16::replay(&v["case"]),
         _ => vec![format!("no replayer for {}", id)],
     };
     let _ = json!(null);
